@@ -568,6 +568,30 @@ def build_op(op, pool, tables, use_knobs=True):
         if sm:
             kw["shuffle_method"] = sm
         return g.transform(fn, **kw)
+    if o == "where":
+        cond = build_pred(x, op["pred"])
+        return x.where(cond, op["other"]) if op.get("mode", "where") == "where" else x.mask(cond, op["other"])
+    if o == "loc_slice":
+        return x.loc[_lit(op["lo"]):_lit(op["hi"])]
+    if o == "nlargest":
+        return getattr(x, op.get("fn", "nlargest"))(op["n"], op["column"])
+    if o == "str_method":
+        sacc = x.str
+        return getattr(sacc, op["fn"])(*op.get("args", []))
+    if o == "dt_attr":
+        return getattr(x.dt, op["attr"])
+    if o == "melt":
+        return x.melt(id_vars=op["id_vars"], value_vars=op["value_vars"])
+    if o == "combine_first":
+        return pool[src[0]].combine_first(pool[src[1]])
+    if o == "round":
+        return x.round(op.get("decimals", 0))
+    if o == "frame_isin":
+        return x.isin(op["values"])
+    if o == "describe":
+        return x.describe()
+    if o == "quantile":
+        return x.quantile(op["q"], method="dask")
     if o == "random_split":
         rs = np.random.RandomState(op["rs_seed"]) if op.get("rs_kind", "int") == "RandomState" else op["rs_seed"]
         return x.random_split(op["frac"], random_state=rs, shuffle=op.get("shuffle", False))[op["piece"]]
@@ -712,6 +736,11 @@ FAMILIES = (
     "alias",
     "merge_filter",
 )
+
+# families that are generated only where the oracle does not compare two compilation routes of one program
+# (C05 schedules, C08 names, C09 graphs, C19 plans): they widen the operator coverage without adding the
+# C01-C04 defect surface to the differential oracles of C10 / C17
+EXTENDED_FAMILIES = ("where", "loc", "nlargest", "accessor", "melt", "combine_first", "frame_misc")
 
 
 class Member:
@@ -1289,6 +1318,100 @@ class Generator:
         if self.rng.random() < 0.3:
             pred = ["and", pred, self._atom(*(lambda c: (c, m.cols[c]))(self.rng.choice(lcols + rcols)))]
         return self.try_add({"op": "filter", "src": m.id, "pred": pred}, m.order, m.labels, m.root, m.index_kind)
+
+    def g_where(self):
+        m = self.pick(self.frames(lambda m: all(k in NUMERIC for k in m.cols.values())))
+        if not m:
+            return None
+        op = {"op": "where", "src": m.id, "pred": self.draw_pred(m), "other": self.rng.choice([0, -1, 99]), "mode": self.rng.choice(["where", "mask"])}
+        return self.try_add(op, m.order, m.labels, m.root, m.index_kind)
+
+    def g_loc(self):
+        ms = [m for m in self.frames() + self.series() if m.known and m.order == "defined" and m.labels == "defined" and m.index_kind in ("range", "int_sorted")]
+        m = self.pick(ms)
+        if not m:
+            return None
+        lo = self.rng.randint(0, 10)
+        op = {"op": "loc_slice", "src": m.id, "lo": lo, "hi": lo + self.rng.randint(0, 20)}
+        return self.try_add(op, m.order, m.labels, self.next_id, m.index_kind)
+
+    def g_nlargest(self):
+        m = self.pick(self.frames())
+        if not m:
+            return None
+        cands = self.cols_of(m, ("int",))
+        if not cands:
+            return None
+        c = self.rng.choice(cands)
+        op = {"op": "nlargest", "src": m.id, "n": self.rng.choice([1, 2, 3, 5]), "column": c, "fn": self.rng.choice(["nlargest", "nsmallest"])}
+        # ties at the cut-off: which of the tied rows survive is open -> observe the key column only
+        a = self.try_add(op, "open", "open", self.next_id, None)
+        if a is None:
+            return None
+        return self.try_add({"op": "getcol", "src": a.id, "column": c}, "open", "open", a.root, None)
+
+    def g_accessor(self):
+        ss = self.series()
+        strs = [m for m in ss if list(m.cols.values())[0] == "str"]
+        dts = [m for m in ss if list(m.cols.values())[0] == "dt"]
+        if strs and (not dts or self.rng.random() < 0.5):
+            m = self.pick(strs)
+            fn, args = self.rng.choice([("upper", []), ("len", []), ("startswith", ["a"]), ("slice", [0, 1]), ("contains", ["c"])])
+            return self.try_add({"op": "str_method", "src": m.id, "fn": fn, "args": args}, m.order, m.labels, m.root, m.index_kind)
+        if dts:
+            m = self.pick(dts)
+            return self.try_add({"op": "dt_attr", "src": m.id, "attr": self.rng.choice(["day", "month", "dayofweek", "year"])}, m.order, m.labels, m.root, m.index_kind)
+        m = self.pick(self.frames())
+        if not m:
+            return None
+        cands = self.cols_of(m, ("str", "dt"))
+        if not cands:
+            return None
+        return self.try_add({"op": "getcol", "src": m.id, "column": self.rng.choice(cands)}, m.order, m.labels, m.root, m.index_kind)
+
+    def g_melt(self):
+        m = self.pick(self.frames(lambda m: len(self.cols_of(m, NUMERIC)) >= 2))
+        if not m:
+            return None
+        num = self.cols_of(m, NUMERIC)
+        idv = [self.rng.choice([c for c in m.cols])]
+        vv = [c for c in num if c not in idv][:2]
+        if not vv:
+            return None
+        return self.try_add({"op": "melt", "src": m.id, "id_vars": idv, "value_vars": vv}, "open", "open", self.next_id, None)
+
+    def g_combine_first(self):
+        fr = self.frames(lambda m: m.known and m.order == "defined" and m.labels == "defined" and m.index_kind == "range")
+        a = self.pick(fr)
+        if not a:
+            return None
+        same = [m for m in fr if list(m.cols) == list(a.cols) and m.id != a.id]
+        b = self.pick(same)
+        if not b:
+            return None
+        return self.try_add({"op": "combine_first", "src": [a.id, b.id]}, "defined", "defined", self.next_id, "range")
+
+    def g_frame_misc(self):
+        r = self.rng.random()
+        if r < 0.3:
+            m = self.pick(self.frames(lambda m: all(k in NUMERIC for k in m.cols.values())))
+            if not m:
+                return None
+            return self.try_add({"op": "round", "src": m.id, "decimals": self.rng.choice([0, 1])}, m.order, m.labels, m.root, m.index_kind)
+        if r < 0.6:
+            m = self.pick(self.frames(lambda m: all(k in NUMERIC for k in m.cols.values())))
+            if not m:
+                return None
+            return self.try_add({"op": "frame_isin", "src": m.id, "values": [0, 1, 2, 2.5]}, m.order, m.labels, m.root, m.index_kind)
+        if r < 0.8:
+            s_ = self.pick(self.series(lambda m: list(m.cols.values())[0] in NUMERIC))
+            if not s_:
+                return None
+            return self.try_add({"op": "quantile", "src": s_.id, "q": self.rng.choice([0.25, 0.5, 0.9])}, "defined", "defined", self.next_id, None)
+        m = self.pick(self.frames(lambda m: all(k in NUMERIC for k in m.cols.values())))
+        if not m:
+            return None
+        return self.try_add({"op": "describe", "src": m.id}, "defined", "defined", self.next_id, None)
 
     def g_concat(self):
         fr = self.frames()
